@@ -81,13 +81,13 @@ def step (cfg : Cfg) (i : Nat) (v : V) (f : List String) : Except String V := do
     | none => fail i "parse"
   | ["cp", t, n] =>
     match nat? t, nat? n with
-    | some t, some n => do let s' ← app (.callStartPool t n) "call start_pool"; pure { v with s := s' }
+    | some t, some n => do let s' ← app (.callStartPool t n) "call-start_pool"; pure { v with s := s' }
     | _, _ => fail i "parse"
   | [c, t, k] =>
     if c = "cs" ∨ c = "co" then
       match nat? t, nat? k with
       | some t, some k =>
-        if k ≠ s.tasks.length then fail i "task id" else do
+        if k ≠ s.tasks.length then fail i "task-id" else do
         let s' ← app (if c = "cs" then .callSubmit t else .callSos t) "call submit"
         pure { v with s := s', lastTask := (t, k) :: v.lastTask.filter (·.1 != t) }
       | _, _ => fail i "parse"
@@ -98,7 +98,7 @@ def step (cfg : Cfg) (i : Nat) (v : V) (f : List String) : Except String V := do
         let ok := if k = "G" then s.gLock.isNone && s'.gLock == some t && s'.pLock == s.pLock
                   else if k = "P" then s.pLock.isNone && s'.pLock == some t && s'.gLock == s.gLock
                   else false
-        if ok then pure { v with s := s' } else fail i "acquired a different lock than the model"
+        if ok then pure { v with s := s' } else fail i "acquired-a-different-lock-than-the-model"
       | none => fail i "parse"
     else if c = "na" then
       match nat? t with
@@ -107,7 +107,7 @@ def step (cfg : Cfg) (i : Nat) (v : V) (f : List String) : Except String V := do
     else if c = "sw" then
       match nat? t, nat? k with
       | some t, some ch =>
-        if ch ≠ s.threads.length then fail i "child tid" else do
+        if ch ≠ s.threads.length then fail i "child-tid" else do
         let s' ← app (.spawn t false) "spawn"; pure { v with s := s' }
       | _, _ => fail i "parse"
     else if c = "rn" ∨ c = "fn" then
@@ -117,30 +117,30 @@ def step (cfg : Cfg) (i : Nat) (v : V) (f : List String) : Except String V := do
           | some (.wRun _ k') | some (.auxStart k') => c = "rn" && k' = k
           | some (.wRunning _ k') | some (.auxRunning k') => c = "fn" && k' = k
           | _ => false
-        if !holds then fail i "thread does not hold this task" else do
+        if !holds then fail i "thread-does-not-hold-this-task" else do
         let s' ← app (if c = "rn" then .run t else .fin t) "run/fin"; pure { v with s := s' }
       | _, _ => fail i "parse"
-    else fail i "unknown event"
+    else fail i "unknown-event"
   | ["cd", t] => match nat? t with
-    | some t => do let s' ← app (.callShutdown t) "call shut_down"; pure { v with s := s' }
+    | some t => do let s' ← app (.callShutdown t) "call-shut_down"; pure { v with s := s' }
     | none => fail i "parse"
   | ["cq", t] => match nat? t with
-    | some t => do let s' ← app (.callPoolShutdown t) "call pool shut_down"; pure { v with s := s' }
+    | some t => do let s' ← app (.callPoolShutdown t) "call-pool-shut_down"; pure { v with s := s' }
     | none => fail i "parse"
   | ["ca", t] => match nat? t with
-    | some t => do let s' ← app (.callAwait t) "call await_shutdown"; pure { v with s := s' }
+    | some t => do let s' ← app (.callAwait t) "call-await_shutdown"; pure { v with s := s' }
     | none => fail i "parse"
   | ["sf", t] => match nat? t with
-    | some t => do let s' ← app (.spawn t true) "failed spawn"; pure { v with s := s' }
+    | some t => do let s' ← app (.spawn t true) "failed-spawn"; pure { v with s := s' }
     | none => fail i "parse"
   | ["to", t] => match nat? t with
     | some t => do let s' ← app (.timeout t) "timeout"; pure { v with s := s' }
     | none => fail i "parse"
   | ["sp", t] => match nat? t with
-    | some t => do let s' ← app (.spurious t) "spurious wake-up"; pure { v with s := s' }
+    | some t => do let s' ← app (.spurious t) "spurious-wake-up"; pure { v with s := s' }
     | none => fail i "parse"
   | ["ex", t] => match nat? t with
-    | some t => if pc t == some .exited then pure v else fail i "thread returned but the model's has not ended"
+    | some t => if pc t == some .exited then pure v else fail i "thread-returned-but-the-model's-has-not-ended"
     | none => fail i "parse"
   | ["n1", t, cv, u] =>
     match nat? t with
@@ -153,13 +153,13 @@ def step (cfg : Cfg) (i : Nat) (v : V) (f : List String) : Except String V := do
   | ["rt", t, op, res] =>
     match nat? t with
     | some t =>
-      if pc t != some .idle then fail i "call returned but the model's call has not" else
+      if pc t != some .idle then fail i "call-returned-but-the-model's-call-has-not" else
       if op = "cs" ∨ op = "co" then
         match v.lastTask.find? (·.1 == t) with
         | some (_, k) =>
           let acc := (s.tasks[k]?.map Status.accepted).getD false
-          if acc == (res == "ok") then pure v else fail i "submission result differs from the model"
-        | none => fail i "return without call"
+          if acc == (res == "ok") then pure v else fail i "submission-result-differs-from-the-model"
+        | none => fail i "return-without-call"
       else pure v
     | none => fail i "parse"
   | "rl" :: t :: l :: rest | "wt" :: t :: l :: rest =>
@@ -184,23 +184,23 @@ def step (cfg : Cfg) (i : Nat) (v : V) (f : List String) : Except String V := do
           | some (.rhInG _) => isWait
           | _ => false
         let exp := expectedNotifies s t
-        if mine.map (fun (_, cv, all, _) => (cv, all)) != exp then fail i "notify calls differ from the model" else
+        if mine.map (fun (_, cv, all, _) => (cv, all)) != exp then fail i "notify-calls-differ-from-the-model" else
         match next cfg s (.rel t target flag) with
-        | none => fail i "release/wait not enabled in the model"
+        | none => fail i "release/wait-not-enabled-in-the-model"
         | some s' =>
           let waitOk := match s'.threads[t]? with
             | some l' => match cvOfWait l' with
               | some (cv, timed) => isWait && rest.head? == some (String.singleton cv) && rest[1]? == some (if timed then "1" else "0")
               | none => !isWait
             | none => false
-          if !waitOk then fail i "wait/return differs from the model" else
+          if !waitOk then fail i "wait/return-differs-from-the-model" else
           let lockOk := if l = "G" then s.gLock == some t && s'.gLock.isNone else s.pLock == some t && s'.pLock.isNone
-          if !lockOk then fail i "released a different lock than the model" else
+          if !lockOk then fail i "released-a-different-lock-than-the-model" else
           let snapOk := if l = "G" then s'.threadCount == a && s'.gShutting == (b == 1) && s'.hasPool == (c == 1)
                         else s'.queue.length == a && s'.available == b && s'.pShutting == (c == 1)
-          if !snapOk then fail i s!"snapshot differs from the model" else
+          if !snapOk then fail i s!"snapshot-differs-from-the-model" else
           pure { v with s := s', pending := v.pending.filter (·.1 != t) }
-  | _ => fail i "unknown event"
+  | _ => fail i "unknown-event"
 
 def validate (cfg : Cfg) (evs : List (List String)) : String :=
   let rec go (i : Nat) (v : V) : List (List String) → String
